@@ -106,10 +106,18 @@ class Trace:
         def is_marked(q):
             m = real["is_marked"].fget(q)
             if task() == "SPA:Unhandled packet":
-                tr.log.append(["poll", ("unh",), False])          # wake-up after the mark-sleep: pops iff still marked
-                tr._pending["SPA:Unhandled packet"] = [len(tr.log) - 1, 2]
+                # one poll per wake-up: the consumer may look at the mark twice in the same wake-up (loop test, then the pop test)
+                lp = asyncio.get_running_loop()
+                stamp = (getattr(lp, "iterations", None), lp.time())
+                if tr._unh_wake.get(id(q)) != stamp or stamp[0] is None:
+                    tr.log.append(["poll", ("unh",), False])      # wake-up in the mark phase: pops iff still marked and out of patience
+                    tr._unh_wake[id(q)] = stamp
+                    tr._unh_idx[id(q)] = len(tr.log) - 1
+                tr._pending["SPA:Unhandled packet"] = [tr._unh_idx[id(q)], 2]
                 tr._unh_phase[id(q)] = "waking" if m else "idle"
             return m
+
+        tr._unh_wake, tr._unh_idx = {}, {}
 
         def pop(q):
             name = task()
